@@ -66,8 +66,12 @@ Proof. reflexivity. Qed.
 
 Ltac cons := intros; unfold ConstrainedFitness_le, ConstrainedFitness_lt, ConstrainedFitness_eq,
   ConstrainedFitness_gt, ConstrainedFitness_ge, ConstrainedFitness_ne, ConstrainedFitness_dominates,
-  c_le, c_lt, c_eq, c_gt, c_ge, c_ne, c_dominates; cbv zeta; rewrite !gen_violates, ?gen_dominates;
-  try reflexivity.
+  c_le, c_lt, c_eq, c_gt, c_ge, c_ne, c_dominates; cbv zeta; rewrite ?gen_violates, ?gen_dominates;
+  try reflexivity;
+  (* not syntactically the model's branch structure (e.g. merged or reordered tests on the two violation flags):
+     decide by case analysis on the flags *)
+  repeat match goal with |- context [violates ?x] => destruct (violates x) eqn:? end;
+  cbn [andb orb negb]; try reflexivity.
 
 Lemma gen_c_le a b : ConstrainedFitness_le a b = c_le a b. Proof. cons. Qed.
 Lemma gen_c_lt a b : ConstrainedFitness_lt a b = c_lt a b. Proof. cons. Qed.
